@@ -910,7 +910,7 @@ Proof. intros Hnd sf Hin. destruct (In_nth_error _ _ Hin) as [i Hi]. eapply find
 (* ---------------- the refinement theorem ---------------- *)
 Definition scalar_like (v : Value) : bool :=
   match v with
-  | VBool _ | VInt _ _ | VF32 _ | VF64 _ | VChar _ | VStr _ | VUnitStruct
+  | VBool _ | VInt _ _ | VF32 _ | VF64 _ | VChar _ | VStr _
   | VUnitVariant _ _ | VNewtypeVariant _ _ _ | VTupleVariant _ _ _ | VStructVariant _ _ _ => true
   | _ => false
   end.
@@ -966,7 +966,7 @@ Proof.
 Qed.
 
 Lemma shape_null_ok f b : shape f b ->
-  forall v, (v = VNone \/ v = VUnit) -> interp f v = if fnullable' f then IOk LNull else IReject.
+  forall v, (v = VNone \/ v = VUnit \/ v = VUnitStruct) -> interp f v = if fnullable' f then IOk LNull else IReject.
 Proof.
   intros Hs v Hv. destruct f as [nm dt nl].
   assert (Hcore : match dt with DUnion _ | DNull => False | _ => True end).
@@ -976,7 +976,7 @@ Proof.
     - destruct Hs as (-> & _). exact I.
     - destruct Hs as (cf & -> & _). exact I.
     - destruct Hs as (fs & -> & _). exact I. }
-  destruct Hv as [-> | ->]; cbn [interp fdt' fnullable']; destruct dt; try contradiction; rewrite Bool.orb_false_r; reflexivity.
+  destruct Hv as [-> | [-> | ->]]; cbn [interp fdt' fnullable']; destruct dt; try contradiction; rewrite Bool.orb_false_r; reflexivity.
 Qed.
 
 Lemma shape_validity f b : shape f b ->
@@ -1011,7 +1011,12 @@ Proof.
   - (* unit *)
     intros f b b' lvs Hs Hw Hc Hp. cbn [push] in Hp. destruct (push_none_ext b b' lvs Hw Hc Hp) as [Hc' Hv].
     exists LNull. split; [|split; [exact Hc'|eapply push_none_shape; eassumption]].
-    rewrite (shape_null_ok f b Hs VUnit (or_intror eq_refl)). pose proof (shape_validity f b Hs) as Hn. unfold vnull in Hn.
+    rewrite (shape_null_ok f b Hs VUnit (or_intror (or_introl eq_refl))). pose proof (shape_validity f b Hs) as Hn. unfold vnull in Hn.
+    destruct b; cbn in Hv, Hn; (destruct validity; [rewrite Hn; reflexivity|contradiction]).
+  - (* unit struct: written like a unit *)
+    intros f b b' lvs Hs Hw Hc Hp. cbn [push] in Hp. destruct (push_none_ext b b' lvs Hw Hc Hp) as [Hc' Hv].
+    exists LNull. split; [|split; [exact Hc'|eapply push_none_shape; eassumption]].
+    rewrite (shape_null_ok f b Hs VUnitStruct (or_intror (or_intror eq_refl))). pose proof (shape_validity f b Hs) as Hn. unfold vnull in Hn.
     destruct b; cbn in Hv, Hn; (destruct validity; [rewrite Hn; reflexivity|contradiction]).
   - (* newtype struct *) intros f b b' lvs Hs Hw Hc Hp. cbn [push] in Hp. destruct (IHx f b b' lvs Hs Hw Hc Hp) as (lv & Hi & R). exists lv. split; [exact Hi|exact R].
   - (* seq *)
